@@ -1,9 +1,11 @@
 #!/bin/bash
-# seed_eval.sh <seed-name e.g. C16-m1> [tier] : apply seeded/<name>/patch.diff to /repo, run the check of its property, undo.
-S=/verif/seeded/$1; P=$(python3 -c "import json;print(json.load(open('$S/meta.json'))['property'])"); T=${2:-quick}
-cd /verif; git -C /repo diff --quiet || { echo "/repo dirty"; exit 3; }
-git -C /repo apply "$S/patch.diff" || exit 2
-IDS=${3:-$P}
-export VERIF_EVIDENCE_DIR=/tmp/seed_evidence
-for id in $IDS; do ./check $id --tier $T > /tmp/seed_eval_$1_$id.log 2>&1; echo "$1 check=$id rc=$? $(grep -c '^VIOLATION' /tmp/seed_eval_$1_$id.log) violation-lines"; grep -E "^VIOLATION|FAILED|INCONCLUSIVE" /tmp/seed_eval_$1_$id.log | head -6; done
-git -C /repo checkout -- .
+# seed_eval.sh <seed-name e.g. C16-m1> [tier] [check ids] [only-glob] : apply seeded/<name>/patch.diff to a scratch worktree of
+# /repo HEAD, run the check(s) against it (VERIF_REPO), remove the worktree.  Evidence and scratch output go to /tmp.
+S=/verif/seeded/$1; P=$(python3 -c "import json;print(json.load(open('$S/meta.json'))['property'])"); T=${2:-quick}; IDS=${3:-$P}; ONLY=$4
+W=/tmp/se_$1; rm -rf $W; git -C /repo worktree prune; git -C /repo worktree add -q --detach $W HEAD || exit 2
+( cd $W && git apply "$S/patch.diff" ) || { git -C /repo worktree remove --force $W; exit 2; }
+cd /verif; export VERIF_EVIDENCE_DIR=/tmp/seed_evidence/$1 VERIF_REPO=$W VERIF_WORK=/tmp/se_work_$1
+for id in $IDS; do
+  if [ -n "$ONLY" ]; then ./check $id --tier $T --only "$ONLY" > /tmp/seed_eval_$1_$id.log 2>&1; else ./check $id --tier $T > /tmp/seed_eval_$1_$id.log 2>&1; fi
+  echo "$1 check=$id rc=$? $(grep -c '^VIOLATION' /tmp/seed_eval_$1_$id.log) violation-lines"; grep -E "FAILED|INCONCLUSIVE" /tmp/seed_eval_$1_$id.log | cut -c1-200 | head -4; done
+git -C /repo worktree remove --force $W; rm -rf /tmp/se_work_$1
